@@ -117,6 +117,10 @@ def uadd (c : Cfg) (a b : Nat) : M Nat :=
 def usub (c : Cfg) (a b : Nat) : M Nat :=
   if b ≤ a then pure (a - b) else if c.overflowChecks then panic else pure ((a + W - b) % W)
 
+/-- `debug_assert!(cond)`: only present in builds with debug assertions -/
+def dassert (c : Cfg) (cond : Bool) : M Unit :=
+  if c.debugAssertions && !cond then panic else pure ()
+
 /-! ### memory primitives -/
 
 def getRegion (r : Nat) : M Region := fun s =>
@@ -351,18 +355,21 @@ def mutFromVec (reg : Option Nat) (len cap : Nat) : Handle :=
 
 /-- `advance_unchecked(count)` (64-bit: `pos ≤ MAX_VEC_POS` always holds for real allocations; the
 promote branch is modelled for completeness) -/
-def mutAdvanceUnchecked (h : Handle) (count : Nat) : M Handle :=
+def mutAdvanceUnchecked (cfg : Cfg) (h : Handle) (count : Nat) : M Handle :=
   match h with
   | .mut arc reg off len cap orig =>
     if count = 0 then pure h
-    else match arc with
+    else do
+      dassert cfg (count ≤ cap)                       -- "internal: set_start out of bounds"
+      let cap' ← usub cfg cap count                   -- `self.cap -= count`
+      match arc with
       | none =>
-        if off + count ≤ W / 32 - 1 then pure (.mut none reg (off + count) (len - count) (cap - count) orig)
+        if off + count ≤ W / 32 - 1 then pure (.mut none reg (off + count) (len - count) cap' orig)
         else do
           -- promote_to_shared(1)
           let c ← newCtrl (.sharedV reg (off + len) (off + cap) orig) 1
-          pure (.mut (some c) reg (off + count) (len - count) (cap - count) orig)
-      | some c => pure (.mut (some c) reg (off + count) (len - count) (cap - count) orig)
+          pure (.mut (some c) reg (off + count) (len - count) cap' orig)
+      | some c => pure (.mut (some c) reg (off + count) (len - count) cap' orig)
   | _ => panic
 
 /-- bytes.rs `shared_to_vec_impl` / `shared_to_mut_impl`, unique branch: take the buffer out of the
@@ -424,7 +431,7 @@ def bytesIntoVec (e : Env) (h : Handle) : M Handle :=
   | _ => panic
 
 /-- the vtable's `into_mut` (`From<Bytes> for BytesMut`) -/
-def bytesIntoMut (e : Env) (h : Handle) : M Handle :=
+def bytesIntoMut (cfg : Cfg) (e : Env) (h : Handle) : M Handle :=
   match h with
   | .bytes .static reg off len => do
     let v ← toVecCopy e reg off len
@@ -439,13 +446,13 @@ def bytesIntoMut (e : Env) (h : Handle) : M Handle :=
     | _ => panic
   | .bytes (.prom none) reg off len =>
     -- promotable_to_mut: Vec::from_raw_parts(buf, cap, cap); from_vec; advance_unchecked(off)
-    mutAdvanceUnchecked (mutFromVec reg (off + len) (off + len)) off
+    mutAdvanceUnchecked cfg (mutFromVec reg (off + len) (off + len)) off
   | .bytes (.prom (some c)) reg off len | .bytes (.shared c) reg off len => do
     -- shared_to_mut_impl
     let u ← ctrlIsUnique c
     if u then do
       let (r, cap) ← takeSharedB c
-      mutAdvanceUnchecked (mutFromVec (some r) (len + off) cap) off
+      mutAdvanceUnchecked cfg (mutFromVec (some r) (len + off) cap) off
     else do
       let v ← toVecCopy e reg off len
       releaseCtrl c
@@ -500,7 +507,8 @@ def mutReserveInner (cfg : Cfg) (e : Env) (h : Handle) (additional : Nat) (alloc
     -- KIND_VEC
     if cap - len + off ≥ additional ∧ off ≥ len then do
       copyWithin reg off 0 len          -- copy_nonoverlapping (ranges are disjoint since off ≥ len)
-      pure (.mut none reg 0 len (cap + off) orig, true)
+      let cap' ← uadd cfg cap off       -- `self.cap += off`
+      pure (.mut none reg 0 len cap' orig, true)
     else if !allocate then pure (h, false)
     else do
       -- rebuild_vec(ptr, len, cap, off).reserve(additional)
@@ -515,7 +523,7 @@ def mutReserveInner (cfg : Cfg) (e : Env) (h : Handle) (additional : Nat) (alloc
       | .sharedV vreg _ vcap vorig =>
         if ce.rc = 1 then do
           -- unique: `offset` = self.ptr - v.as_ptr()
-          let sum ← uadd cfg newCap off                            -- `new_cap + offset`, unchecked in the source
+          let sum := min (newCap + off) (W - 1)                     -- `new_cap.saturating_add(offset)`
           if vcap ≥ sum then pure (.mut (some c) reg off len newCap orig, true)
           else if vcap ≥ newCap ∧ off ≥ len then do
             copyWithin reg off 0 len
@@ -527,6 +535,7 @@ def mutReserveInner (cfg : Cfg) (e : Env) (h : Handle) (additional : Nat) (alloc
               let want := newCap + off
               let double := if vcap * 2 < W then vcap * 2 else want  -- checked_shl(1).unwrap_or(new_cap)
               let target := max double want
+              dassert cfg (off + len ≤ vcap)
               -- v.set_len(off + len); v.reserve(target - v.len())
               let (vreg', vcap') ← vecReserve e vreg (off + len) vcap (target - (off + len))
               setCtrl c { ce with c := .sharedV vreg' (off + len) vcap' vorig }
@@ -557,6 +566,7 @@ def mutExtend (cfg : Cfg) (e : Env) (h : Handle) (bs : List Byte) : M Handle := 
   | .mut arc reg off len cap orig =>
     if cap - len < bs.length then panic      -- advance_mut's check (not reachable after a successful reserve)
     else do
+      dassert cfg (cap - len ≥ bs.length)
       writeRange reg (off + len) bs
       pure (.mut arc reg off (len + bs.length) cap orig)
   | _ => panic
@@ -624,7 +634,7 @@ def bytesSplitOffCore (i k : Nat) : M Handle := do
       | _, _ => panic
   | _ => panic
 
-def opSplitOff (i k : Nat) : M Val := do
+def opSplitOff (cfg : Cfg) (i k : Nat) : M Val := do
   let h ← getHandle i
   match h with
   | .bytes .. => do
@@ -635,7 +645,7 @@ def opSplitOff (i k : Nat) : M Val := do
     if k > cap then panic
     else do
       let (self', other) ← mutShallowClone h
-      let other' ← mutAdvanceUnchecked other k
+      let other' ← mutAdvanceUnchecked cfg other k
       match self' with
       | .mut arc reg off len _ orig => do
         setHandle i (.mut arc reg off (min len k) k orig)
@@ -644,7 +654,7 @@ def opSplitOff (i k : Nat) : M Val := do
       | _ => panic
   | _ => panic
 
-def opSplitTo (i k : Nat) : M Val := do
+def opSplitTo (cfg : Cfg) (i k : Nat) : M Val := do
   let h ← getHandle i
   match h with
   | .bytes repr reg off len =>
@@ -669,7 +679,7 @@ def opSplitTo (i k : Nat) : M Val := do
     if k > len then panic
     else do
       let (self', other) ← mutShallowClone h
-      let self'' ← mutAdvanceUnchecked self' k
+      let self'' ← mutAdvanceUnchecked cfg self' k
       setHandle i self''
       match other with
       | .mut arc reg off _ _ orig => do
@@ -694,10 +704,9 @@ def opTruncate (i n : Nat) : M Val := do
       match repr with
       | .prom _ => do
         -- drop(self.split_off(n))
-        let r ← opSplitOff i n
-        match r with
-        | .handle j => opDrop j
-        | _ => panic
+        let o ← bytesSplitOffCore i n
+        bytesDrop o
+        pure .unit
       | _ => do setHandle i (.bytes repr reg off n); pure .unit
     else pure .unit
   | .mut arc reg off len cap orig =>
@@ -797,12 +806,12 @@ def step (cfg : Cfg) (e : Env) (op : Op) : M Val :=
           pure (.handle j)
         | _ => panic
     | _ => panic
-  | .splitOff i k => opSplitOff i k
-  | .splitTo i k => opSplitTo i k
+  | .splitOff i k => opSplitOff cfg i k
+  | .splitTo i k => opSplitTo cfg i k
   | .split i => do
     let h ← getHandle i
     match h with
-    | .mut _ _ _ len _ _ => opSplitTo i len
+    | .mut _ _ _ len _ _ => opSplitTo cfg i len
     | _ => panic
   | .truncate i n => opTruncate i n
   | .clear i => opTruncate i 0
@@ -814,7 +823,7 @@ def step (cfg : Cfg) (e : Env) (op : Op) : M Val :=
     | .mut _ _ _ len _ _ =>
       if n > len then panic
       else do
-        let h' ← mutAdvanceUnchecked h n
+        let h' ← mutAdvanceUnchecked cfg h n
         setHandle i h'
         pure .unit
     | _ => panic
@@ -826,7 +835,7 @@ def step (cfg : Cfg) (e : Env) (op : Op) : M Val :=
     let h ← getHandle i
     let u ← bytesIsUnique h
     if u then do
-      let m ← bytesIntoMut e h
+      let m ← bytesIntoMut cfg e h
       setHandle i m
       pure (.handle i)
     else pure (.err i)
@@ -834,7 +843,7 @@ def step (cfg : Cfg) (e : Env) (op : Op) : M Val :=
     let h ← getHandle i
     match h with
     | .bytes .. => do
-      let m ← bytesIntoMut e h
+      let m ← bytesIntoMut cfg e h
       setHandle i m
       pure (.handle i)
     | _ => panic
